@@ -430,6 +430,7 @@ fn get_power_level_for_sender<E: Event>(
     fetch_event: impl Fn(&EventId) -> Option<E>,
 ) -> std::result::Result<Int, String> {
     let event = fetch_event(event_id);
+    let mut has_room_create_event = false;
     let mut room_create_event = None;
     let mut room_power_levels_event = None;
 
@@ -437,22 +438,26 @@ fn get_power_level_for_sender<E: Event>(
         if let Some(aev) = fetch_event(aid.borrow()) {
             if is_type_and_key(&aev, &TimelineEventType::RoomPowerLevels, "") {
                 room_power_levels_event = Some(RoomPowerLevelsEvent::new(aev));
-            } else if creator_lock.get().is_none()
-                && is_type_and_key(&aev, &TimelineEventType::RoomCreate, "")
-            {
-                room_create_event = Some(RoomCreateEvent::new(aev));
+            } else if is_type_and_key(&aev, &TimelineEventType::RoomCreate, "") {
+                has_room_create_event = true;
+
+                if creator_lock.get().is_none() {
+                    room_create_event = Some(RoomCreateEvent::new(aev));
+                }
             }
 
-            if room_power_levels_event.is_some()
-                && (creator_lock.get().is_some() || room_create_event.is_some())
-            {
+            if room_power_levels_event.is_some() && has_room_create_event {
                 break;
             }
         }
     }
 
+    // The creator is only taken into account if the event has the `m.room.create` event in its
+    // auth events, so the result doesn't depend on which events were looked at before this one.
     // TODO: Use OnceLock::try_or_get_init when it is stabilized.
-    let creator = if let Some(creator) = creator_lock.get() {
+    let creator = if !has_room_create_event {
+        None
+    } else if let Some(creator) = creator_lock.get() {
         Some(creator)
     } else if let Some(room_create_event) = room_create_event {
         let creator = room_create_event.creator(rules)?;
